@@ -112,6 +112,7 @@ type Ctx struct {
 	hashes     map[uint64]struct{}
 	sets       map[string]map[string]struct{}
 	journal    *os.File
+	stopped    bool
 	cur        int64
 	maxSamples int
 }
@@ -126,8 +127,21 @@ func (c *Ctx) Pick(q, t int) int {
 	return t
 }
 
+// StopWorker makes the worker skip all remaining cases (its process state is
+// no longer trustworthy, e.g. goroutines were leaked into it); the skipped
+// cases are counted.
+func (c *Ctx) StopWorker(why string) {
+	if !c.stopped {
+		c.stopped = true
+		c.Inconclusive("worker stopped early after a violation: " + why)
+	}
+}
+
 // Mine tells whether case i belongs to this worker.
 func (c *Ctx) Mine(i int64) bool {
+	if c.stopped {
+		return false
+	}
 	if c.Only >= 0 {
 		return i == c.Only
 	}
